@@ -922,4 +922,121 @@ theorem applyAllV_preserves_reachable {v : Variant} {G : Id → List Id} {roots 
     exact ih h2 (reach_mono (fun y hy hhy => applyV_preserves_reachable h1 hy hhy) hr)
       (applyV_preserves_reachable h1 hr hx)
 
+/-! ### roots while refs are being packed -/
+
+theorem refTrace_length (s : RefAt) (prog : List RefAct) : (refTrace s prog).length = prog.length + 1 := by
+  induction prog generalizing s with
+  | nil => rfl
+  | cons a rest ih => simp [refTrace, ih]
+
+/-- along the trace of a packer that writes packed-refs before unlinking: the ref is always stored somewhere, and once
+it is in packed-refs it stays there (`packed` = it was in packed-refs to begin with or has been written since) -/
+theorem refTrace_inv (prog : List RefAct) :
+    ∀ (s : RefAt), (s.1 = true ∨ s.2 = true) → packsBeforeUnlink s.2 prog = true →
+      ∀ i j, i ≤ j → j < (refTrace s prog).length → rootSeen (refTrace s prog) i j = true := by
+  induction prog with
+  | nil =>
+    intro s hs _ i j hij hj
+    simp only [refTrace, List.length_singleton] at hj
+    have hj0 : j = 0 := by omega
+    have hi0 : i = 0 := by omega
+    subst hj0; subst hi0
+    simp only [rootSeen, refTrace, List.getElem?_cons_zero, Option.map_some, Option.getD_some, Bool.or_eq_true]
+    exact hs
+  | cons a rest ih =>
+    intro s hs hp i j hij hj
+    have hs' : (s.act a).1 = true ∨ (s.act a).2 = true := by
+      cases a with
+      | writePacked => exact .inr rfl
+      | unlinkLoose =>
+        simp only [packsBeforeUnlink, Bool.and_eq_true] at hp
+        exact .inr hp.1
+      | other => exact hs
+    have hp' : packsBeforeUnlink (s.act a).2 rest = true := by
+      cases a with
+      | writePacked => simpa [packsBeforeUnlink, RefAt.act] using hp
+      | unlinkLoose =>
+        simp only [packsBeforeUnlink, Bool.and_eq_true] at hp
+        exact hp.2
+      | other => simpa [packsBeforeUnlink, RefAt.act] using hp
+    cases i with
+    | succ i' =>
+      cases j with
+      | zero => omega
+      | succ j' =>
+        have := ih (s.act a) hs' hp' i' j' (by omega) (by simp only [refTrace, List.length_cons] at hj; omega)
+        simpa [rootSeen, refTrace] using this
+    | zero =>
+      -- the loose tree is read in the initial state
+      by_cases hl : s.1 = true
+      · simp [rootSeen, refTrace, hl]
+      · have hpk : s.2 = true := by
+          rcases hs with h | h
+          · exact absurd h hl
+          · exact h
+        -- packed from the start: it stays packed along the whole trace
+        have stays : ∀ (prog : List RefAct) (s : RefAt), s.2 = true → ∀ j, j < (refTrace s prog).length →
+            ((refTrace s prog)[j]?.map (·.2)).getD false = true := by
+          intro prog
+          induction prog with
+          | nil =>
+            intro s h j hj
+            simp only [refTrace, List.length_singleton] at hj
+            have : j = 0 := by omega
+            subst this
+            simp [refTrace, h]
+          | cons a rest ih2 =>
+            intro s h j hj
+            cases j with
+            | zero => simp [refTrace, h]
+            | succ j' =>
+              have h2 : (s.act a).2 = true := by cases a <;> simp [RefAt.act, h]
+              have := ih2 (s.act a) h2 j' (by simp only [refTrace, List.length_cons] at hj; omega)
+              simpa [refTrace] using this
+        have := stays (a :: rest) s hpk j hj
+        simp only [rootSeen, Bool.or_eq_true]
+        exact .inr this
+
+/-! ### the configured grace period -/
+
+theorem gitKeyword_of_tableSound {table : List (String × Option Nat)} (h : tableSound table = true) {k : String}
+    {g : Option Nat} (hl : table.lookup k = some g) : gitKeyword k = some true := by
+  induction table with
+  | nil => simp [List.lookup] at hl
+  | cons e rest ih =>
+    obtain ⟨k', g'⟩ := e
+    simp only [tableSound, List.all_cons, Bool.and_eq_true, beq_iff_eq] at h
+    simp only [List.lookup] at hl
+    by_cases hk : k = k'
+    · subst hk
+      exact h.1
+    · have : (k == k') = false := by simpa using hk
+      rw [this] at hl
+      exact ih (by simpa [tableSound] using h.2) hl
+
+/-- with a sound keyword table: whatever the value, the grace period the code derives from it is at least as long as the
+value's meaning demands (an object that `now - g` lets through was last written at or before the expiry instant); "no age
+check" is only ever derived from a value that means "everything may go"; a value that means "never" or has no meaning is
+refused -/
+theorem graceOf_respects_expiry (table : List (String × Option Nat)) (hs : tableSound table = true) (dflt now : Nat)
+    (hd : 1209600 ≤ dflt) (v : ConfigValue) :
+    match graceOf table dflt now v with
+    | .secs g => ∃ e, expiryOf now v = some e ∧ now - g ≤ e
+    | .noAgeCheck => expiryOf now v = some now
+    | .refuse => True := by
+  cases v with
+  | unset => exact ⟨_, rfl, by omega⟩
+  | keyword k =>
+    simp only [graceOf]
+    cases hl : table.lookup k with
+    | none => trivial
+    | some g =>
+      have hk := gitKeyword_of_tableSound hs hl
+      cases g with
+      | none => simp [expiryOf, hk]
+      | some g => exact ⟨now, by simp [expiryOf, hk], by omega⟩
+  | secondsAgo n => exact ⟨_, rfl, by simp⟩
+  | absolute t => exact ⟨t, rfl, by omega⟩
+  | other => trivial
+
 end Dulwich.GC
